@@ -152,10 +152,17 @@ def TopClean : Nat → List Ev → Prop
 /-- **what `read_event` hands out is clean outside the root**, for every token sequence and every depth -/
 theorem deEventsAt_topClean : ∀ (q : List QEv) (d : Nat), TopClean d (deEventsAt d q)
   | [], d => by simp [deEventsAt, TopClean]
-  | .start n r :: t, d => by simp only [deEventsAt, TopClean]; exact deEventsAt_topClean t (d + 1)
+  | .start n r :: t, d => by
+    simp only [deEventsAt]
+    split
+    · simp only [TopClean]; exact deEventsAt_topClean t (d + 1)
+    · simp [TopClean]
   | .stop n :: t, d => by simp only [deEventsAt, TopClean]; exact deEventsAt_topClean t (d - 1)
   | .empty n r :: t, d => by
-    simp only [deEventsAt, TopClean, Nat.add_sub_cancel]; exact deEventsAt_topClean t d
+    simp only [deEventsAt]
+    split
+    · simp only [TopClean, Nat.add_sub_cancel]; exact deEventsAt_topClean t d
+    · simp [TopClean]
   | .text raw :: t, d => by
     simp only [deEventsAt]
     split
